@@ -201,12 +201,15 @@ CLAIMED["C08"] = dict(
     "adapter's neighbourhood and with which (errors, matches)' with the replacement and ambiguity rule of _make_index; neighbourhood membership runs the banded DP of edit_environment "
     "along s (indels) or counts mismatches (no indels): every entry belongs to an adapter of the set in whose neighbourhood the key lies, with that adapter's own errors/matches "
     "(C08_entry_sound); without indels the entry is exact -- same length, errors = Hamming distance <= k, matches = length - errors (C08_hamming_exact); an adapter strictly closer "
-    "to the key than every other one (in particular the only one occurring) is what the dictionary holds wherever it stands in the list, i.e. independently of the adapter order "
-    "(C08_unique_best_any_order). PARTIAL: that the banded DP cost is the edit distance, the coordinate bounds of the multi-length look-up loop and the lift of the uniqueness theorem from "
-    "one key to the loop over affix lengths are not theorems; they rest on the correspondence (IndexedPrefix/SuffixAdapters.match_to, the index's string lengths and dictionary content on "
-    "probe strings vs the extracted model; 16k-200k cases) and on the textbook-distance oracle (soundness incl. coordinates and exact errors, unique occurrence, agreement with one-by-one "
-    "search and order independence for equal lengths without indels; also at the command line with and without --no-index). Genuine defects found and repaired: F8a (9002ce0), F8b (db1eac7).",
-    technique="Coq proof (fold invariants over the adapter list; induction over the key for the Hamming neighbourhood) + extracted-model differential correspondence with AdapterIndex; textbook-distance oracle on the implementation",
+    "to the key than every other one is what the dictionary holds wherever it stands in the list, i.e. independently of the adapter order (C08_unique_best_any_order); keys have one of "
+    "the indexed lengths (C08_key_lengths, from the band of the DP); the coordinates of every match reported by the look-up loop lie inside the read and are anchored, also for reads "
+    "shorter than an indexed string (C08_coordinates); whenever all anchored affixes of an N-free read that the dictionary knows belong to one adapter and one of them has an indexed length "
+    "that fits, a match is reported and it is a match of that adapter (C08_unique_reported: loop over descending lengths, sequential affix shrinking = direct slicing). PARTIAL: that the "
+    "banded DP cost of an indel entry is the edit distance is not a theorem; it rests on the correspondence (IndexedPrefix/SuffixAdapters.match_to, the index's string lengths and "
+    "dictionary content on probe strings vs the extracted model; 16k-200k cases) and on the textbook-distance oracle (soundness incl. coordinates and exact errors, unique occurrence, "
+    "agreement with one-by-one search and order independence for equal lengths without indels; also at the command line with and without --no-index). Genuine defects found and repaired: "
+    "F8a (9002ce0), F8b (db1eac7).",
+    technique="Coq proof (fold invariants over the adapter list; band argument on the model of edit_environment's DP; loop invariants for the affix look-up) + extracted-model differential correspondence with AdapterIndex; textbook-distance oracle on the implementation",
     design="6/C08",
     note=TB + " 'Two nearest adapters' is read as nearest among the adapters that occur within their own tolerance. Reads with N go through the re-alignment fallback, which is modelled (match_to) but not covered by theorems.",
 )
